@@ -75,6 +75,22 @@ class C09(Prop):
             st = CC.gen_setters(rng) if rng.random() < 0.4 else []
             for walk in ("direct", "compare"):
                 out.append({"stream": "cmp", "tag": "tr:" + walk, "input": {"a": a, "b": b, "walk": walk, "setters": st, "tr": copy.deepcopy(tr)}})
+        # ---- systematic: with the places switched off the unique lists hold bare values; different nodes that miss the SAME
+        #      value each contribute their own entry (and their own line of 'differences')
+        for _ in range(20 if quick else 500):
+            val = rng.choice(["sale", 1, True, None, 2.5])
+            n = rng.randint(2, 4)
+            names = rng.sample(["p", "q", "r", "s", "t"], n)
+            a = {k: {"tag": val, "z": 1} for k in names}
+            b = {k: {"z": 1} for k in names}
+            if rng.random() < 0.5:
+                a["l"], b["l"] = [val] * rng.randint(1, 3) + ["x"], ["x"]
+            if rng.random() < 0.5:
+                a, b = b, a
+            st = [["place", False]] + (CC.gen_setters(rng) if rng.random() < 0.3 else [])
+            st = [x for x in st if x[0] != "place"] + [["place", False]]
+            for walk in ("direct", "compare"):
+                out.append({"stream": "cmp", "tag": "sys:noplace:" + walk, "input": {"a": a, "b": b, "walk": walk, "setters": st}})
         return out
 
     def valid(self, case):
